@@ -57,6 +57,9 @@ for tier, k in (("q", 3), ("t", 4)):
     cfg("c03h_" + tier, N2, k + 1, ["blocks", "frames", "groups"], ["gframes"], [], ["Create", "Link", "Links", "Close", "Open"], life=2, steps=k + 3, emit=["AddLink", "RemoveLink", "SetLinks", "Open"])
     cfg("c03i_" + tier, N1, k + 1, ["blocks", "arrays", "mtags", "groups"], ["gmtags"], [], ["Create", "Link", "Links", "Close", "Open"], life=2, steps=k + 3, emit=["AddLink", "RemoveLink", "SetLinks", "Open"])
     cfg("c03e_" + tier, N3, k, ["blocks"], [], [], CD, life=2, emit=J3)
+    # members of link containers deleted from their owner and created again under the same name (one name per kind, so every re-creation meets its predecessor)
+    cfg("c03j_" + tier, N1, k + 1, ["blocks", "frames", "groups"], ["gframes"], [], ["Create", "Delete", "Link"], steps=k + 4, emit=["Create", "Delete", "AddLink"])
+    cfg("c03k_" + tier, N1, k + 2, ["blocks", "arrays", "tags", "groups"], ["garrays", "gtags", "refs"], [], ["Create", "Delete", "Link"], steps=k + 4, emit=["Create", "Delete", "AddLink"])
     # C04: deletion in link graphs (sibling structures need two names)
     J4 = ["Delete"]
     L = ["Create", "Delete", "Link", "One"]
